@@ -49,6 +49,16 @@ class ModuleV:
     dotted: str
 
 
+def _holds_ref(v: Any) -> bool:
+    if isinstance(v, Ref):
+        return True
+    if isinstance(v, dict):
+        return any(_holds_ref(x) for x in v.values())
+    if isinstance(v, (tuple, list, frozenset)):
+        return any(_holds_ref(x) for x in v)
+    return False
+
+
 @dataclass(frozen=True)
 class PartialV:
     func: Any
@@ -123,6 +133,7 @@ class Interp:
         self.max_states = max_states
         self.loop_limit = loop_limit
         self._const_cache: dict[str, Any] = {}
+        self._const_heap: set[str] = set()
         self.stmt_hook: Optional[Callable] = None
         self.ctx_stack: list[tuple[ModuleInfo, Optional[ClassInfo]]] = []
         self.depth = 0
@@ -176,15 +187,15 @@ class Interp:
         closure = st.meta.get("closure")
         if closure and name in closure:
             return closure[name]
-        return self.module_name(self.mod, name)
+        return self.module_name(self.mod, name, st)
 
-    def module_name(self, mi: ModuleInfo, name: str) -> Any:
+    def module_name(self, mi: ModuleInfo, name: str, st: Optional[State] = None) -> Any:
         if name in mi.funcs:
             return FuncV(mi.funcs[name].qualname)
         if name in mi.classes:
             return ClassV(mi.classes[name].qualname)
         if name in mi.assigns:
-            return self.module_const(mi, name)
+            return self.module_const(mi, name, st)
         if name in mi.imports:
             tgt = mi.imports[name]
             r = self.model.resolve_dotted(tgt)
@@ -197,7 +208,7 @@ class Interp:
             if r and "." in r:
                 m, n = r.rsplit(".", 1)
                 if m in self.model.modules and n in self.model.modules[m].assigns:
-                    return self.module_const(self.model.modules[m], n)
+                    return self.module_const(self.model.modules[m], n, st)
             if tgt in EXT_BUILTINS:
                 return BoundV(None, EXT_BUILTINS[tgt])
             return Opaque(f"ext:{tgt}")
@@ -207,26 +218,39 @@ class Interp:
             return {"True": True, "False": False, "None": None}[name]
         return Unknown(f"name {name}")
 
-    def module_const(self, mi: ModuleInfo, name: str) -> Any:
+    def module_const(self, mi: ModuleInfo, name: str, into: Optional[State] = None) -> Any:
+        """Value of a module-level assignment.  Containers of scalars are frozen and cached.  A constant that holds heap OBJECTS
+        (a table of NamedTuple / dataclass instances) cannot be shared between abstract heaps: it is re-materialised in the asking state."""
         key = f"{mi.dotted}.{name}"
-        if key in self._const_cache:
+        if key in self._const_cache and not (key in self._const_heap and into is not None):
             return self._const_cache[key]
-        self._const_cache[key] = Unknown(f"recursive constant {key}")
+        self._const_cache.setdefault(key, Unknown(f"recursive constant {key}"))
         expr = mi.assigns[name]
-        st = State()
+        st = into if key in self._const_heap and into is not None else State()
         self.ctx_stack.append((mi, None))
+        saved = st.frames[:] if st is into else None
+        if st is into:
+            st.frames.append({})
         try:
             res = self.eval(expr, st)
         finally:
             self.ctx_stack.pop()
+            if saved is not None:
+                st.frames[:] = saved
         val: Any = Unknown(f"constant {key}")
-        if len(res) == 1 and not isinstance(res[0][0], Raised):
+        if len(res) == 1 and not isinstance(res[0][0], Raised) and (st is not into or res[0][1] is st):
             v = res[0][0]
             if isinstance(v, Ref):
                 # freeze module-level containers of constants
                 v = self.B.freeze(self, v, res[0][1])
             val = v
-        self._const_cache[key] = val
+        if st is not into and _holds_ref(val):
+            self._const_heap.add(key)
+            if into is not None:
+                return self.module_const(mi, name, into)
+            val = Unknown(f"constant {key} holds objects and no state to materialise it in")
+        if st is not into:
+            self._const_cache[key] = val
         return val
 
     # ------------------------------------------------------------ expressions
